@@ -16,7 +16,9 @@ URows == {Row([c |-> NumV(i)]) : i \in {1, 3}} \cup {Row([c |-> NumV(2), a |-> N
 U1 == Row([c |-> NumV(1)])
 U3 == Row([c |-> NumV(3)])
 UN == Row([c |-> NumV(2), a |-> Null])
-UTables == {<<>>, <<U1>>, <<U3, U1>>, <<UN>>, <<U1, UN, U3>>}
+\* (a row whose own column a hides the outer row's a inside an EXISTS subquery)
+UA == Row([c |-> NumV(5), a |-> NumV(3)])
+UTables == {<<>>, <<U1>>, <<U3, U1>>, <<UN>>, <<U1, UN, U3>>, <<U1, UA>>}
 Docs == {ObjV([x \in {"t", "u"} |-> IF x = "t" THEN ArrV(t) ELSE ArrV(u)]) : t \in SeqsUpTo(TRows, MaxRows), u \in UTables}
 
 A == Col("a")
@@ -81,6 +83,9 @@ Subs == { SelQ(<<I(A), Item(Sub(NQ(<<I(P)>>, None)), "s")>>, T, None),
           \* EXISTS over a table of the enclosing document whose rows share a key with the outer row
           SelQ(<<I(A)>>, T, Exists(SelQ(<<Star>>, Table(<<"<-", "u">>, ""), CmpE(">", Col("c"), LN(1))))),
           SelQ(<<I(A)>>, T, Exists(SelQ(<<Star>>, Table(<<"<-", "u">>, ""), CmpE(">=", Col("c"), A)))),
+          \* a column of the element and a column of the outer row under one name: the element's own hides the outer one
+          SelQ(<<I(A)>>, T, Exists(SelQ(<<Star>>, Table(<<"<-", "u">>, ""), CmpE("=", A, LN(3))))),
+          SelQ(<<I(A)>>, T, Exists(SelQ(<<Star>>, Table(<<"<-", "u">>, ""), AndE(CmpE(">", Col("c"), LN(3)), CmpE("!=", A, LN(3)))))),
           \* a WITH clause inside a row-scoped subquery
           SelQ(<<I(A), Item(Sub([NQ(<<I(P)>>, None) EXCEPT !.from = Table(<<"big">>, ""),
                                     !.with = <<[name |-> "big", q |-> NQ(<<I(P)>>, CmpE(">", P, LN(1)))]>>]), "s")>>, T, None),
